@@ -217,3 +217,16 @@ Proof. exact accessors_after_copy_roots. Qed.
 Print Assumptions C16_accessors_after_copy_roots.
 Example c16_state_phase_ok : phase_ok PhMp c16_state.
 Proof. destruct c16_state_nonvacuous as (A & B & _). split; [exact B|exact A]. Qed.
+
+(* non-vacuity for the dpe phase: value 1 + i/8 (DPE), radius 2^-1100 (below the double range): well-formed, finite radius handed out *)
+Definition c16_state_dpe : approx :=
+  MkApprox (fzero, fzero) ((c16_half, 1%Z), (c16_half, (-2)%Z)) (MkMpf 2 0 0, MkMpf 2 0 0) fzero (c16_half, (-1099)%Z) 64 0 0 0 true.
+Example c16_state_dpe_nonvacuous :
+  phase_ok PhDpe c16_state_dpe /\ state_wf PhDpe c16_state_dpe /\ is_finite (get_roots_d_radius PhDpe c16_state_dpe) = true.
+Proof.
+assert (H : B2R c16_half = / 2) by (unfold B2R, c16_half, F2R; simpl; lra).
+assert (W : rdpe_wf (c16_half, 1%Z) /\ rdpe_wf (c16_half, (-2)%Z) /\ rad_wf (c16_half, (-1099)%Z)).
+{ unfold rad_wf, rdpe_wf. simpl fst. rewrite H, Rabs_pos_eq by lra. repeat split; try lra; try reflexivity. }
+split; [exact W|split; [exact W|]].
+vm_compute. reflexivity.
+Qed.
